@@ -776,7 +776,7 @@ func runShard(childTest string, shard, nshards int, dir string) (out shardResult
 		out.cases++
 		out.mis = append(out.mis, abs.Mismatch{Sig: "crash:" + msg, Case: cur, Got: tail(buf.String(), 1200), Want: "no panic",
 			Note: "the process running the real code died while replaying this behaviour"})
-		if crashes >= 12 {
+		if crashes >= 3 {
 			out.crashLimit = true
 			return
 		}
